@@ -356,6 +356,26 @@ lc = [
 gc = sum(x for x in y)
 dc = {k: v for (k, v) in items if k}
 ''',
+# 15b multi-line bytes / str statements in indented blocks, optional-entry lists (None first) inside blocks
+'''\
+def f():
+    b"""bytes line one
+    line two
+      line three"""
+    x = 1
+    """not a docstring
+    but a string statement"""
+    return x
+class K:
+    def g(self, *, a, b=1, c, d=[1]):
+        e = {**base, 'k': v, **more, 2: 3}
+        return e
+if cond:
+    b\'\'\'single
+  weird\'\'\'
+    def h(*, p, q=2): pass
+    lam = lambda *, r, s=3: {**r, s: 1}
+''',
 # 16 class bases/keywords interleaved, call args/keywords interleaved
 '''\
 class A(B, *C, metaclass=M, **kw): pass
